@@ -179,7 +179,7 @@ RPow(R, x, n) == IF n = 0 THEN ROne(R) ELSE RMul(R, x, RPow(R, x, n-1))
 
 \* ---------------------------------------------------------------- Euclidean structure
 IsField(R)  == R.k \in {"Q", "F"}
-PDeg(R, f)  == Max({e : e \in DOMAIN f})                   \* one variable, f # 0
+PDeg(R, f)  == IF DOMAIN f = {} THEN -1 ELSE Max({e : e \in DOMAIN f})   \* one variable; -1 for 0
 PLead(R, f) == f[PDeg(R, f)]
 
 \* Euclidean norm of r strictly smaller than that of b (b # 0, r # 0)
@@ -210,7 +210,7 @@ RIsNormalized(R, x) ==
              [] R.k = "F" -> x \in {0, 1 % R.p}
              [] R.k = "G" -> (x.a.s = 0 /\ x.b.s = 0) \/ (x.a.s = 1 /\ x.b.s >= 0)
              [] R.k = "E" -> (x.a.s = 0 /\ x.b.s = 0) \/ (x.a.s = 1 /\ x.b.s >= 0)
-             [] R.k = "P" -> RIsZero(R, x) \/ RSame(R.b, PLead(R, x), ROne(R.b))
+             [] R.k = "P" -> IF RIsZero(R, x) THEN TRUE ELSE RSame(R.b, PLead(R, x), ROne(R.b))
 
 \* the finite unit groups (for rings where it is finite and small)
 RUnitSet(R) ==
